@@ -268,6 +268,17 @@ func c20CheckShuffle(c *kit.Case, in c20ShuffleInput) {
 	if at := c20Eq(again, want); at >= 0 {
 		c.Failf("second Shuffle call with identical arguments differs at %d", at)
 	}
+	// the same entropy with other lengths, shorter then longer then the first again: what Shuffle
+	// returns depends on its arguments only, not on the calls made before with that entropy
+	for _, m := range []int{in.N/2 + 1, in.N + 5, 2*in.N + 3, in.N} {
+		if m > 2400 {
+			continue
+		}
+		si := c20Iota(m)
+		if at := c20Eq(shuffle.Shuffle(c20ToU32(si), types.OpaqueHash(h)), c20RefShuffle(si, h)); at >= 0 {
+			c.Failf("Shuffle of %d elements differs from F.3 at position %d when called after Shuffle of %d elements with the same entropy %x", m, at, in.N, h)
+		}
+	}
 	switch {
 	case in.N == 0:
 		c.Class("shuffle_len_0")
